@@ -9,6 +9,12 @@ import (
 	"github.com/gopcua/opcua/uasc"
 )
 
+// publishing intervals in milliseconds the server is willing to run a subscription at
+const (
+	minPublishingInterval = 1.0
+	maxPublishingInterval = 24 * 60 * 60 * 1000.0
+)
+
 // SubscriptionService implements the Subscription Service Set.
 //
 // https://reference.opcfoundation.org/Core/Part4/v105/docs/5.13
@@ -69,6 +75,22 @@ func (s *SubscriptionService) CreateSubscription(sc *uasc.SecureChannel, r ua.Re
 		return nil, err
 	}
 
+	// the subscription's worker dereferences the session on every tick
+	session := s.srv.Session(r.Header())
+	if session == nil {
+		return nil, ua.StatusBadSessionIDInvalid
+	}
+
+	// time.NewTicker panics on a non-positive duration: revise the interval into a sane range
+	// (a NaN, zero or negative request gets the minimum, an overflowing one the maximum)
+	interval := req.RequestedPublishingInterval
+	if !(interval >= minPublishingInterval) {
+		interval = minPublishingInterval
+	}
+	if interval > maxPublishingInterval {
+		interval = maxPublishingInterval
+	}
+
 	s.Mu.Lock()
 	defer s.Mu.Unlock()
 
@@ -80,10 +102,10 @@ func (s *SubscriptionService) CreateSubscription(sc *uasc.SecureChannel, r ua.Re
 
 	sub := NewSubscription()
 	sub.srv = s
-	sub.Session = s.srv.Session(r.Header())
+	sub.Session = session
 	sub.Channel = sc
 	sub.ID = newsubid
-	sub.RevisedPublishingInterval = req.RequestedPublishingInterval
+	sub.RevisedPublishingInterval = interval
 	sub.RevisedLifetimeCount = req.RequestedLifetimeCount
 	sub.RevisedMaxKeepAliveCount = req.RequestedMaxKeepAliveCount
 
@@ -101,7 +123,7 @@ func (s *SubscriptionService) CreateSubscription(sc *uasc.SecureChannel, r ua.Re
 			AdditionalHeader:   ua.NewExtensionObject(nil),
 		},
 		SubscriptionID:            uint32(newsubid),
-		RevisedPublishingInterval: req.RequestedPublishingInterval,
+		RevisedPublishingInterval: interval,
 		RevisedLifetimeCount:      req.RequestedLifetimeCount,
 		RevisedMaxKeepAliveCount:  req.RequestedMaxKeepAliveCount,
 	}
